@@ -278,6 +278,9 @@ def plan(prop, tier):
         if prop in ("C06", "C07"):
             # register/unregister/gather histories issued by several real threads (harness/conc/src/wl_registry.rs)
             procs += conc_e1(prop, tier, 4 if q else 90, 2 if q else 4)
+            if prop == "C06" and not q:
+                # the same threaded histories under Miri (data races / UB in registry + collectors while threads register and gather)
+                procs += conc_miri(prop, tier, 8, 2)
         if not q and prop in SEQ_MIRI:
             procs += seq_miri(prop, 8, SEQ_MIRI[prop])
         if prop == "C04" and not q:
